@@ -89,6 +89,14 @@ class Engine(Interp, ExecMixin, EvalMixin, CallMixin, BuiltinMixin):
                 # ghost assignment placed by the caller's contract just before this call
                 o = self.ev_spec(st, loc.value)
                 st.obj(o).fields[loc.attr] = self.ev_spec(st, expr)
+        if st.spec == 0 and st.frames:
+            cc1 = getattr(st.frame, "contract", None)
+            for le in ((cc1.options.get("lemma_before") or {}).get(key.split(":")[-1], []) if cc1 is not None else []):
+                done_key = ("lemma_before", key, ast.unparse(le))
+                if done_key in st.ghost.setdefault("__lb", set()):
+                    continue
+                st.ghost["__lb"].add(done_key)
+                self.ev(st, le)         # ghost lemma call placed by the caller's contract just before this call
         env = self.bind_contract_args(st, c, args, kwargs)
         if c.fresh:
             cfr = st.frame
